@@ -87,16 +87,19 @@ ARITY_H = H('arity', 'oracle_arity', 8000, 400000, spec_level=True, nontrivial=l
 
 CHECKS = {
     'C01': dict(
-        spec=['FpVerif.Spec.C01', 'FpVerif.Spec.C01Inst', 'FpVerif.Spec.C01T', 'FpVerif.Spec.C16'],
+        spec=['FpVerif.Spec.C01', 'FpVerif.Spec.C01Inst', 'FpVerif.Spec.C01T', 'FpVerif.Spec.C16', 'FpVerif.Spec.C01Fn'],
         harnesses=MONAD_H + [TRYOPT_H, ARITY_H, H('iter', 'oracle_iter', 4000, 400000, spec_level=True, project=project_iter, extra=dict(quick=['-prop', 'C12'], thorough=['-prop', 'C12'])),
-                             H('eval', 'oracle_eval', 2000, 100000, spec_level=True, extra=dict(quick=['-deep', '20000'], thorough=['-deep', '200000']))],
+                             H('eval', 'oracle_eval', 2000, 100000, spec_level=True, extra=dict(quick=['-deep', '20000'], thorough=['-deep', '200000'])),
+                             # the function monads fn0 / fn1 (reader monad over the effect monad)
+                             H('fn', 'oracle_fn', 3000, 150000, spec_level=True)],
         level='proof',
         modelled='X_monad.go + X_traverse.go of option/try/either/statet (one generic model of the generator template, '
                  'instantiated four times; every arity through operand lists); FlatMap/Pure/FoldM and the hand-written cores of '
                  'try_op.go, option_op.go, either_op.go; methods of fp.Try/fp.Option/fp.Either. Iterator/List monads: C12 harness; lazy.Eval monad (lazy.Map/FlatMap/Map2, monad laws and faithfulness theorems of Spec/C16): eval harness. '
                  'MonadChainN/ApplicativeFunctorN builders: model and theorems in Spec/C14 (chain_def, applicative_def), exercised here through the arity harness. '
                  'try.OptionT / try.SeqT transformer functions (try_optiont.go, try_seqt.go: core six + the Transform family) in Model/TryOpt.lean (TryT), Spec/C01T. '
-                 'Iterator and lazy List monads through the C12 harness. Not modelled: fn0/fn1.',
+                 'Iterator and lazy List monads through the C12 harness. fn0/fn1 (Pure, Map, FlatMap, Flatten, Get, WithArg; reader monad over the effect monad, two-stage '
+                 'Flatten m(u)(u)), MonadOps/Lawful instance of the reader carrier: Model/FnMonad.lean, Spec/C01Fn.lean, fn harness.',
         assumptions=['Go evaluates call arguments before the call and left to right; every M-typed argument of the generated family is a '
                      'variable or a nested call used exactly once (checked by the correspondence, not proved)',
                      'iterators handed to FoldM/Traverse are viewed as the finite list they yield (pull behaviour: C12/C20)'],
@@ -271,10 +274,12 @@ CHECKS = {
                      'most one element (single use / pull order of iterators: C12, C20)'],
     ),
     'C16': dict(
-        spec=['FpVerif.Spec.C16', 'FpVerif.Spec.C16Facts'],
+        spec=['FpVerif.Spec.C16', 'FpVerif.Spec.C16Facts', 'FpVerif.Spec.C01Fn'],
         facts=facts_factx,
         harnesses=[H('eval', 'oracle_eval', 4000, 200000, spec_level=True,
-                     extra=dict(quick=['-deep', '2000000'], thorough=['-deep', '20000000']))],
+                     extra=dict(quick=['-deep', '2000000'], thorough=['-deep', '20000000'])),
+                   # fn1.Memoize is a sync.Once cell like fp.Memoize / lazy.Memoize
+                   H('fn', 'oracle_fn', 2000, 100000, spec_level=True, extra=dict(quick=['-focus', 'memo'], thorough=['-focus', 'memo']))],
         level='proof',
         level_note='trusted: Lean kernel (propext/Classical.choice/Quot.sound only); model fidelity checked by correspondence; '
                    'sync.Once trusted to give the blocking exactly-once semantics modelled in Model/Memo.lean; PARTIAL: constant machine-stack '
